@@ -140,3 +140,18 @@ package node
 //@ guard call delete in ReconcileNode.handleStatus: arg0 == node.Status.NetworkInterfaces
 //@ guard? call maps.DeleteFunc in ReconcileNode.handleStatus: false
 //@ guard? call clear in ReconcileNode.handleStatus: false
+
+//@ for C02
+//@ # ---- getPods: every pod request carries the addresses the pod itself reports (parsed from its status in this very
+//@ # ---- iteration) — on every reconcile, not only on the first take-over: a running pod that is not yet bound in the record
+//@ # ---- is re-adopted onto exactly the address it reports ----
+//@ ghost c02parsed bool = false
+//@ ghost c02v4 string = ""
+//@ ghost c02v6 string = ""
+//@ func ReconcileNode.getPods
+//@   requires n != nil && node != nil && node.Spec.ENISpec != nil
+//@   at call types.PodUseENI: ghost c02parsed = false
+//@   at call podIPs: ghost c02parsed = (result2 == nil)
+//@   at call podIPs: ghost c02v4 = result0
+//@   at call podIPs: ghost c02v6 = result1
+//@ guard mapupdate string->*PodRequest in getPods: c02parsed && value != nil && value.IPv4 == c02v4 && value.IPv6 == c02v6
